@@ -380,6 +380,7 @@ class Unit:
         body = strip_attrs_in_body(body)
         body = strip_macros(body)
         body = self.apply_rules(body, 'body', names, fname)
+        fs.valued = ('->' in sig) and not re.search(r'->\s*\(\s*r\s*:\s*\(\s*\)\s*\)', sig)
         body = self.splice(fs, body)
         body = re.sub(r'\n[ \t]*(\n[ \t]*)+\n', '\n\n', body)
         start = self.line
@@ -442,7 +443,7 @@ class Unit:
                 pos = toks[0].end
             elif where == 'fn.end':
                 # before the tail expression, i.e. after the last depth-1 ';' or '}' statement end
-                pos = self.tail_pos(toks)
+                pos = self.tail_pos(toks, fs.valued)
             else:
                 m = re.match(r'loop(\d+)\.(start|end)$', where)
                 if not m:
@@ -497,23 +498,37 @@ class Unit:
         return body
 
     @staticmethod
-    def tail_pos(toks):
-        """char position just after the last statement terminator at depth 1 of the fn body."""
+    def tail_pos(toks, valued=True):
+        """char position for `fn.end` insertions: just before the tail expression of the body, or at
+        the very end of a body without one."""
+        ends = [toks[0].end]     # statement ends at depth 1
         depth = 0
-        last = toks[0].end
-        i = 0
         n = len(toks)
-        while i < n:
-            t = toks[i]
-            if t.kind == 'punct':
-                if t.text in rsx.OPEN:
-                    depth += 1
-                elif t.text in rsx.CLOSE:
-                    depth -= 1
-                elif t.text == ';' and depth == 1:
-                    last = t.end
-            i += 1
-        return last
+        for i, t in enumerate(toks):
+            if t.kind != 'punct':
+                continue
+            if t.text in rsx.OPEN:
+                depth += 1
+            elif t.text in rsx.CLOSE:
+                depth -= 1
+                if depth == 1 and t.text == '}' and i + 1 < n:
+                    nxt = toks[i + 1].text
+                    if nxt not in ('.', '?', 'else', 'as', '+', '-', '*', '/', '|', '&', '=', '<', '>', '==', ';', ',', ')'):
+                        ends.append(t.end)
+            elif t.text == ';' and depth == 1:
+                ends.append(t.end)
+        last_end = ends[-1]
+        rest = [t for t in toks if t.start >= last_end][:-1]   # minus the closing brace of the fn
+        if rest:
+            return last_end          # there is a tail expression after the last statement
+        if not valued or len(ends) < 2:
+            return last_end          # unit body: the very end
+        # body ends with a block-like expression that is the value: go before it
+        # (find the previous statement end)
+        closing = [t for t in toks if t.end == last_end][0]
+        if closing.text == ';':
+            return last_end
+        return ends[-2]
 
     def do_struct(self, file, name, opts, fields):
         src, text, toks, items = self.source(file)
